@@ -41,7 +41,12 @@ def cases(ctx):
         ep, en = gen.easy(rng, cap=50)
         sc, ec = gen.cfg(rng)
         sampler = SAMPLERS[int(rng.integers(0, len(SAMPLERS)))]
-        grouped = bool(rng.random() < 0.2) and sampler[0] in ("replacement", "single_pass", "dynamic", "identity")
+        grouped = bool(rng.random() < 0.25) and sampler[0] in ("replacement", "single_pass", "dynamic", "identity")
+        if grouped and sampler[0] in ("replacement", "dynamic") and rng.random() < 0.5:
+            sampler = (sampler[0], "by_group")  # only GroupScores knows this stratification (and resolves 'dynamic' differently)
+            if rng.random() < 0.5:
+                pos, neg = rng.normal(1, 1, int(rng.integers(100, 140))), rng.normal(-1, 1, int(rng.integers(100, 140)))
+                kind = "gauss-100+"
         yield {"pos": pos, "neg": neg, "ep": 0 if grouped else ep, "en": 0 if grouped else en, "sc": sc, "ec": ec, "kind": kind, "sampler": list(sampler),
                "metric": "group_fnr" if grouped else str(rng.choice(METRICS)), "grouped": grouped, "nb_samples": int(rng.choice([1, 3, 7, 20])),
                "bm": str(rng.choice(["quantile", "bc", "bca"])), "alpha": float(rng.choice([0.05, 0.1, 0.4])), "thr": rng.normal(0, 1, int(rng.integers(1, 4))),
@@ -121,6 +126,8 @@ def execute(ctx, case):
     samples = [b for (src, c_, b) in sess.bs_log if src is s]
     C(res.shape == (S_,) + point.shape, "bootstrap_metric does not have nb_samples rows of the metric's shape", "boot-shape", got=res.shape, metric_shape=point.shape)
     C(len(samples) == S_, "number of samples drawn differs from nb_samples", "boot-nb-samples", drawn=len(samples))
+    used_cfgs = [c_ for (src, c_, b) in sess.bs_log if src is s]
+    C(all(c_ == cfg for c_ in used_cfgs), "samples were drawn with a configuration other than the one given", "boot-config", used=[str(c_) for c_ in used_cfgs[:2]])
     if len(samples) == S_ and res.shape == (S_,) + point.shape:
         with monitors.oracle_scope_ctx():
             rows = [np.asarray(fn(b)) for b in samples]
@@ -153,6 +160,12 @@ def execute(ctx, case):
         C(np.array_equal(np.asarray(ci, dtype=float), np.stack([point.astype(float)] * 2, axis=-1)), "identity sampler: limits do not collapse onto the point estimate", "boot-identity", ci=ci, point=point)
     # ---- reproducibility ----------------------------------------------------------------------------------------
     if kind not in ("custom",):
+        # "row j is the metric on the j-th sample produced by the configured sampler": the same seed fed to the sampler directly
+        np.random.seed(case["_seed"])
+        with monitors.oracle_scope_ctx():
+            direct = [np.asarray(fn(s.bootstrap_sample(cfg))) for _ in range(S_)]
+        C(res.shape == (S_,) + point.shape and all(np.array_equal(res[j], direct[j], equal_nan=True) for j in range(S_)),
+          "bootstrap_metric under a seed differs from the metric on successive bootstrap_sample(config) calls under the same seed", "boot-direct-sampler")
         np.random.seed(case["_seed"])
         res2 = s.bootstrap_metric(metric, config=cfg, **kw)
         C(np.array_equal(res, res2, equal_nan=True), "same global seed does not reproduce bootstrap_metric", "boot-repro")
